@@ -228,17 +228,60 @@ def impl_plot(case):
     K.PlotHaplotypeBlock = rec
     import contextlib, io
 
+    import matplotlib.colors as mc
+    from matplotlib.figure import Figure
+
+    COLORS = {"YRI": "red", "CEU": "blue", "AMR": "green"}
+    figs = []
+    orig_save = Figure.savefig
+
+    def save(self, *a, **k):  # the public end of every plot: the finished figure, however its artists were put there
+        figs.append(self)
+        return orig_save(self, *a, **k)
+
+    Figure.savefig = save
+    bands = None
     try:
         try:
             with contextlib.redirect_stderr(io.StringIO()):
-                K.PlotKaryogram(bp, case["name"], str(_dir / "out.png"), centromeres_file=cen, title=None, colors={"YRI": "red", "CEU": "blue", "AMR": "green"}, log=getLogger("k", "CRITICAL"))
+                K.PlotKaryogram(bp, case["name"], str(_dir / "out.png"), centromeres_file=cen, title=None, colors=COLORS, log=getLogger("k", "CRITICAL"))
             status = "ok"
         except SystemExit as e:
             status = f"exit:{e.code}"
+        if os.environ.get("VERIF_TAPES") == "calls":  # experiment: exercise the fallback on the unchanged tree
+            added.clear()
+        if status == "ok" and not added and figs:
+            # the blocks were not drawn through PlotHaplotypeBlock: read the coloured rectangles off the finished axes instead,
+            # grouped into the horizontal bands they lie in (one band = one strand of one chromosome)
+            with C.glue("reading the rectangles off the finished figure"):
+                rects = []
+                for ax in figs[-1].axes:
+                    shapes = []
+                    for col in ax.collections:
+                        fcs = col.get_facecolor()
+                        for i, path in enumerate(col.get_paths()):
+                            if len(fcs):
+                                shapes.append((path, fcs[i if len(fcs) > 1 else 0]))
+                    shapes += [(pt.get_path(), pt.get_facecolor()) for pt in ax.patches]
+                    for path, face in shapes:
+                        fc = tuple(round(float(x), 6) for x in face)
+                        pops = [p for p, cname in COLORS.items() if tuple(round(float(x), 6) for x in mc.to_rgba(cname)) == fc]
+                        if len(pops) != 1 or len(path.vertices) < 4:
+                            continue  # not one of the ancestry colours: an outline, a centromere mark …
+                        xs, ys = [v[0] for v in path.vertices[:4]], [v[1] for v in path.vertices[:4]]
+                        rects.append((round(min(ys), 4), round(max(ys), 4), round(min(xs) * 10000), round(max(xs) * 10000), pops[0]))
+                by = {}
+                for y0, y1, x0, x1, pop in rects:
+                    by.setdefault((y0, y1), []).append([pop, x0, x1])
+                bands = sorted(sorted(v, key=lambda r: r[1]) for v in by.values())
     finally:
         K.PlotHaplotypeBlock = orig
+        Figure.savefig = orig_save
         plt.close("all")
-    return {"status": status, "drawn": added}
+    out = {"status": status, "drawn": added}
+    if bands is not None:
+        out["bands"] = bands
+    return out
 
 
 def oracle_plot(case, obs):
@@ -252,6 +295,17 @@ def oracle_plot(case, obs):
     if obs["status"] != "ok":
         return f"PlotKaryogram exited with {obs['status']} for a sample that is present"
     exp = GetBlocksOracle(case)
+    if "bands" in obs:
+        # read off the finished figure: which band is which (chromosome, strand) is not observable there, so the bands are
+        # compared with the sample's (chromosome, strand) sequences as a multiset
+        want = {}
+        for h, strand in enumerate(exp):
+            for pop, c, x0, x1 in strand:
+                want.setdefault((c, h), []).append([pop, x0, x1])
+        want = sorted(sorted(v, key=lambda r: r[1]) for v in want.values())
+        if obs["bands"] != want:
+            return f"the coloured rectangles of the finished figure, band by band, {obs['bands']} differ from the sample's blocks per chromosome and strand {want}"
+        return None
     got = [[b[:4] for b in obs["drawn"] if b[4] == h] for h in (0, 1)]
     if got != exp:
         return f"rectangles drawn {got} differ from the sample's blocks {exp}"
